@@ -14,12 +14,25 @@ def LOOP(k, header, kw, body):
     return inv + "decreases __pv@.len(),"
 
 
+def paths_init(mt):
+    """how `paths` is built from input_files: the canonical `to_vec(); sort(); dedup()` (also sort_unstable, or a BTreeSet) is the stub sorted_dedup_paths (sorted); code
+    that mentions no sorting primitive at all (a filter over a seen-set, an IndexSet, a plain copy) keeps the LISTING order: stub listing_order_paths (no order known);
+    anything else is not classified (UNDECIDED)"""
+    t = mt.group(0)
+    if re.search(r"\bpaths\.sort(_unstable)?\(\);", t) or "BTreeSet" in t:
+        return "\n    let paths = sorted_dedup_paths(input_files); let ghost paths0 = paths@;"
+    if not re.search(r"sort|BTree|cmp|Ord", t):
+        return "\n    let paths = listing_order_paths(input_files); let ghost paths0 = paths@;"
+    from vlib.rsitems import AnchorLost
+    raise AnchorLost("read_source_files: the statements that build `paths` mention an ordering primitive in a form no rule classifies")
+
+
 UNIT = Unit(
     name="U-LOADPKG",
-    properties=["C16", "C13", "C12"],
+    properties=["C16", "C13", "C12", "C14"],
     # read_gom_sources' sortedness is C13's clause; load_package's one-package clause is C16's
-    clause_scope={"C13": {"only": ["paths_sorted(", "entry_once("]}, "C12": {"only": ["no_foreign_positions(", "is Compile"]},
-                  "C16": {"except": ["paths_sorted(", "entry_once(", "no_foreign_positions(", "is Compile"]}},
+    clause_scope={"C13": {"only": ["paths_sorted(", "entry_once(", "paths_of("]}, "C14": {"only": ["paths_sorted(", "paths_of("]}, "C12": {"only": ["no_foreign_positions(", "is Compile"]},
+                  "C16": {"except": ["paths_sorted(", "entry_once(", "paths_of(", "no_foreign_positions(", "is Compile"]}},
     rules=["attrs", "fmtmsg", "msg_to_string", "ok_or_else_q", "let_chain", "let_chain_rev", "opt_map", "opt_is_some_and"],
     describe="packages::load_package and separate::read_source_files: a package unit is ONE package — every file loaded into it (the entry file and every other .gom file of "
              "the directory) declares the unit's own package name, and the unit's import set is exactly what those files declare (an import edge — a self-import "
@@ -85,7 +98,7 @@ UNIT = Unit(
            obligation="(check / build drivers) every file handed to the type checker declares the package being compiled, and that package is not "
                       "the reserved `Builtin`",
            pre_rewrites=[
-               (re.compile(r"let mut paths = input_files\.to_vec\(\);\s*paths\.sort\(\);\s*paths\.dedup\(\);"), "let paths = sorted_dedup_paths(input_files);", 1),
+               (re.compile(r"(?s)\n[ \t]*let (?:mut )?(?:seen|paths)\b.*?(?=\n[ \t]*let mut files = Vec::new\(\);)"), paths_init, 1),
                (re.compile(r"let src = fs::read_to_string\(&path\)\s*\.map_err\(\|err\| compile_error\(format!\([^;]*?\)\)\)\?;", re.S),
                 "let src = match fs_read_to_string(&path) { Ok(v) => v, Err(e) => { return Err(e); } };", 1),
                (re.compile(r"let ast = (parse_\w+)\(&path, &src\)\?;"), r"let ast = match \1(&path, &src) { Ok(v) => v, Err(e) => { return Err(e); } };", 1),
@@ -99,7 +112,10 @@ UNIT = Unit(
                      (re.compile(r"\bast\.package\.0 != package\b"), "str_ne_string(&ast.package.0, package)", "*"),
                      (re.compile(r'\b(\w+) == "Builtin"'), r'strs_eq(\1, "Builtin")', "*")],
            contract="ensures r matches Ok(t) ==> forall|i: int| 0 <= i < t.0@.len() ==> (#[trigger] t.0@[i]).ast.package.0@ == package@,\n"
-                    "        r is Ok ==> !reserved_package_name(package@),\n        no_foreign_positions(r),",
-           loop_fn=lambda k, header, kw, body: ("invariant forall|i: int| 0 <= i < files@.len() ==> (#[trigger] files@[i]).ast.package.0@ == package@,\ndecreases __iv0@.len(),")),
+                    "        r is Ok ==> !reserved_package_name(package@),\n        no_foreign_positions(r),\n"
+                    "        r matches Ok(t) ==> paths_sorted(paths_of(t.0@)),",
+           ghost=[("?files.push(", "line-after", "proof { assert(paths_of(files@) + __iv0@ =~= paths0); }")],
+           loop_fn=lambda k, header, kw, body: ("invariant forall|i: int| 0 <= i < files@.len() ==> (#[trigger] files@[i]).ast.package.0@ == package@,\n"
+                                                " paths_of(files@) + __iv0@ =~= paths0,\ndecreases __iv0@.len(),")),
     ],
 )
